@@ -38,9 +38,9 @@ struct Acp {
     pres_cls: u64,
     rem_cls: u64,
 }
-fn any_acp() -> Acp {
+fn any_acp(maxlen: usize) -> Acp {
     let lens: [usize; 4] = [kani::any(), kani::any(), kani::any(), kani::any()];
-    kani::assume(lens[0] <= 2 && lens[1] <= 2 && lens[2] <= 2 && lens[3] <= 2);
+    kani::assume(lens[0] <= maxlen && lens[1] <= maxlen && lens[2] <= maxlen && lens[3] <= maxlen);
     let pa = [any_attr(), any_attr()];
     let ra = [any_attr(), any_attr()];
     let pc = [any_class(), any_class()];
@@ -134,8 +134,10 @@ fn granted_sets(kind: u8, n_acp: usize, claim: Claim) -> Witness {
         sync_parent,
         target_match: [kani::any(), kani::any()],
     });
-    let a0 = any_acp();
-    let a1 = any_acp();
+    // one profile: grant lists of <= 2; two profiles: <= 1 each (stated bound)
+    let maxlen = if n_acp >= 2 { 1 } else { 2 };
+    let a0 = any_acp(maxlen);
+    let a1 = any_acp(maxlen);
     let rc = |b: bool| if b { AccessControlReceiverCondition::GroupChecked } else { AccessControlReceiverCondition::EntryManager };
     let (r0, r1): (bool, bool) = (kani::any(), kani::any());
     let related_all = [
